@@ -40,7 +40,7 @@ def dispatch (line : String) : String :=
       | "C15" => Swim.Drv.Ingest.handleC15 kind fs
       | "C16" => Swim.Drv.Codec.handleC16 kind fs
       | "C01" | "C02" | "C07" | "C08" | "C18" => Swim.Drv.Merge.handle prop kind fs
-      | "C06" => if kind == "probe" then Swim.Drv.C19.handle kind fs else if kind == "susp" then Swim.Drv.C06.handleSusp fs else Swim.Drv.Merge.handle prop kind fs
+      | "C06" => if kind == "race" then Swim.Drv.C06.handleRace fs else if kind == "probe" then Swim.Drv.C19.handle kind fs else if kind == "susp" then Swim.Drv.C06.handleSusp fs else Swim.Drv.Merge.handle prop kind fs
       | _ => "PARSE prop"
     s!"{prop} {id} {body}"
   | _ => "? ? PARSE line"
